@@ -211,3 +211,43 @@ Definition pdiag_bytes (c : pcase) : bytes :=
   (if p_oracle_ok (p_dense c) (p_expr c) then [] else of_string "ORACLE-DENSE ") ++
   (if p_oracle_ok (p_readable c) (p_expr c) then [] else of_string "ORACLE-READABLE ").
 End WithPTable.
+
+(** * statement boundaries (stage 3, correspondence only)
+
+    One case = two statements A and B: the dense text of A alone, of B alone, and the dense
+    and readable texts of the block [A B].  Reference criterion (token level, written from
+    the Lua grammar: a prefix expression followed by "(" is a call): when A ends with an
+    expression ([s_exprend]), B starts with "(" and the last token of A is ")", "]" or a
+    name that is not a keyword, then a ";" MUST separate them (statements containing a type
+    cast "::" are not judged: they may end inside a type, where a name is not a prefix
+    expression); in every case the tokens of the block are those of A, then at most one ";",
+    then those of B. *)
+Record scase := { s_exprend : bool; s_a : bytes; s_b : bytes; s_dense : bytes; s_readable : bytes }.
+
+Definition semicolon : token := (TSym, [59]).
+
+Definition must_separate (exprend : bool) (ta tb : list token) : bool :=
+  exprend
+  && negb (existsb (token_eqb (TSym, [58; 58])) ta)   (* a type cast: A may end inside a type; not judged *)
+  && match tb with t :: _ => token_eqb t (TSym, [40]) | [] => false end
+  && match last ta (TSym, []) with
+     | (TSym, s) => bytes_eqb s [41] || bytes_eqb s [93]
+     | (TName, s) => negb (is_keyword s)
+     | _ => false
+     end.
+
+Definition boundary_ok (exprend : bool) (a b ab : bytes) : bool :=
+  match lexn a, lexn b, lexn ab with
+  | Some ta, Some tb, Some tab =>
+    (tokens_eqb tab (ta ++ tb) && negb (must_separate exprend ta tb))
+    || tokens_eqb tab (ta ++ semicolon :: tb)
+  | _, _, _ => false
+  end.
+
+Definition scheck_case (c : scase) : bool :=
+  boundary_ok (s_exprend c) (s_a c) (s_b c) (s_dense c)
+  && boundary_ok (s_exprend c) (s_a c) (s_b c) (s_readable c).
+
+Definition sdiag_bytes (c : scase) : bytes :=
+  (if boundary_ok (s_exprend c) (s_a c) (s_b c) (s_dense c) then [] else of_string "BOUNDARY-DENSE ") ++
+  (if boundary_ok (s_exprend c) (s_a c) (s_b c) (s_readable c) then [] else of_string "BOUNDARY-READABLE ").
